@@ -40,6 +40,7 @@ func init() {
 	)
 	mutExtra["cleanup-in-log-dir"] = [2]string{"	\"io/fs\"\n", "	\"io/fs\"\n	\"os\"\n"}
 	addSelfTests("C21",
+		mutation{"apply-without-log", "kv/aof/kv.go", "			} else if logError := d.appendLog(m.mut); logError == nil {", "			} else if m.mut.GetType() == proto.MutationType_REMOVE_KEYS {\n				mutError = d.handleMutation(m.mut)\n			} else if logError := d.appendLog(m.mut); logError == nil {", "write-ahead"},
 		mutation{"resetvt-reuses-buffers", "kv/aof/log.go", "		entry.Reset()\n		mut.Reset()", "		entry.ResetVT()\n		mut.ResetVT()", "fresh-decode"},
 		mutation{"no-reset", "kv/aof/log.go", "		entry.Reset()\n		mut.Reset()", "		entry.Reset()", "fresh-decode"},
 		mutation{"checksum-other-buffer", "kv/aof/log.go", "	entry.Checksum = crc64.Checksum(mutBuf, crcTable)", "	entry.Checksum = crc64.Checksum(mutBuf[:len(mutBuf)/2], crcTable)", "codec-agreement"},
@@ -180,6 +181,8 @@ func runC20(c *Ctx) {
 		}
 	}
 	c.Extra("state_rejectable_kinds", nrej)
+
+	applyAfterAppend(c, "wal-discipline")
 
 	// counter discipline
 	al := c.Func("kv/aof", "DiskKV", "appendLog")
@@ -388,6 +391,8 @@ func runC21(c *Ctx) {
 		}
 		c.Ob("fresh-decode", "replayLogs#"+m.name, loop.Pos(), ok, "message "+m.name+" must not carry buffers of the previous entry into the next decode (the in-memory store keeps the decoded slices; UnmarshalVT appends into existing backing arrays; ResetVT/pool return keep them): "+det)
 	}
+
+	applyAfterAppend(c, "write-ahead")
 
 	// codec agreement
 	al := c.Func("kv/aof", "DiskKV", "appendLog")
@@ -1010,4 +1015,21 @@ func firstString(f *Fn, n ast.Node) string {
 		return true
 	})
 	return s
+}
+
+// applyAfterAppend: in the writer goroutine a mutation reaches the in-memory state only on
+// the success edge of appendLog for that same mutation (write-ahead). Shared by C20 and C21:
+// a mutation applied without a log record is lost (or undone) by the next restart.
+func applyAfterAppend(c *Ctx, rule string) {
+	start := c.Func("kv/aof", "DiskKV", "Start")
+	applies := start.CallsTo(true, "kv/aof.DiskKV.handleMutation")
+	c.Floor("writer apply sites", len(applies), 1)
+	for _, call := range applies {
+		g := start.enclosing(call)
+		fs := g.FactsAt(call)
+		ok := fs.Has(func(fa *Fact) bool {
+			return fa.Kind == FCallOK && g.IsCall(fa.Call, "kv/aof.DiskKV.appendLog") && len(fa.Call.Args) == 1 && types_ExprString(fa.Call.Args[0]) == types_ExprString(call.Args[0])
+		})
+		c.Ob(rule, "Start#apply-only-after-append-ok", call.Pos(), ok, "the writer applies a mutation to memory only after appendLog of that mutation succeeded; a mutation applied without a log record does not survive a restart")
+	}
 }
